@@ -70,7 +70,12 @@ def check_C16(chk):
     af, ab = PP.api_stage(chk, "C16", bins, ["default"], 400 if thorough else 45, 60, seed_off=51, p_poison=0.3)
     fails = fails + [None] * af
     bad = bad + [None] * ab
-    finish_proof(chk, proof_ok, fails, bad)
+    # a message received from INSIDE another message's deserialisation, well-formed or not (among them: no attachments of its own, bytes
+    # that claim an attachment of the enclosing message): it can only ever yield endpoints attached to itself
+    nfails = []
+    ncases, ntodo, nbad = nestrecv_stage(chk, random.Random(chk.seed + 23), bins["default"], 300 if thorough else 40, nfails, tag="c16n")
+    chk.coverage["nested_receive_cases"] = len(ncases)
+    finish_proof(chk, proof_ok, fails + nfails, bad + nbad)
 
 
 # ------------------------------------------------------------------ C14
@@ -259,61 +264,15 @@ def script_stage(chk, rng, binp, ncases, depth, tag="c14"):
     return cases, got, fails, todo, bad, errors
 
 
-def check_C14(chk):
-    thorough = chk.tier == "thorough"
-    rng = random.Random(chk.seed)
-    proof_ok = C.proof_stage(chk, "C14")
-    bins = build_all(chk, ["default", "inprocess"]) if False else build_all(chk, ["default"])
-    if not all(bins.values()):
-        return
-    cases, got, fails, todo, bad, errors = script_stage(chk, rng, bins["default"], 5000 if thorough else 300, 5 if thorough else 3)
-    cov = chk.coverage
-    cov["evaluations"] = len(cases)
-    cov["traces_validated_against_impl"] = len(todo)
-    cov["distinct_nontrivial"] = len({c["body"] + (c["pre"][0] if c["pre"] else "") for c in cases if "(" in c["body"] or "f" in c["body"] or c["pre"]})
-    cov["correspondence_mismatches"] = len(bad)
-    cov["rule"] = ("script driver: a value whose Serialize implementation interprets a generated program (emit data, embed senders / move receivers / regions, "
-                   "nested sends of depth <= 3 (thorough 5) with their own attachments whose failure is propagated or ignored, failure at any point), optionally "
-                   "preceded on the same thread by a send that fails after embedding endpoints, always followed by a plain message; the receiver is a platform-level "
-                   "one-shot server so the raw attachment list of every message is visible and each attachment is identified by probing; messages, results and "
-                   "release of every endpoint are compared with Tls.ipc_send; non-trivial = nested or failing programs")
-    cov["input_distribution"] = {"with_failing_predecessor": sum(1 for c in cases if c["pre"]), "failing": sum(1 for c in cases if "f" in c["body"]),
-                                 "nested": sum(1 for c in cases if "(" in c["body"])}
-    for c in [x for x in cases if "(" in x["body"]][:3]:
-        r = got.get(c["id"])
-        chk.sample({"serializer_program": c["body"], "kinds": c["kinds"], "pre": c["pre"] and c["pre"][0], "observed": r and r["result"]})
-    if errors:
-        chk.unproved("model evaluation (coqc on generated cases) failed", errors[0][-1500:])
-    if bad and not fails:
-        c, r = bad[0]
-        chk.unproved("correspondence TlsCheck.check_script: messages / results differ from Tls.ipc_send on %d of %d programs" % (len(bad), len(todo)),
-                     {"serializer_program": c["body"], "model_term": c["term"], "kinds": c["kinds"], "pre": c["pre"], "observed": r and r["result"]})
-    # sends refused by the OS (receiver gone), small and multi-packet, carrying senders, a moved receiver and a region; sends whose
-    # serialisation fails after embedding: nothing of them may be retained (res driver scenarios shared with C11)
-    rnames = ["send_closed_att", "send_closed_big_att", "ser_fail_att"]
-    rrecs, _, rrc, rerr = C.run_harness(bins["default"], "res", ["scen name=%s n=%d" % (s, 20) for s in rnames], shim=False, timeout=300)
-    rgot = {r.get("name"): r for r in rrecs if r.get("kind") == "scen"}
-    for sname in rnames:
-        r = rgot.get(sname)
-        why = None
-        if r is None:
-            why = "scenario %s did not complete (rc=%s): %s" % (sname, rrc, rerr[-300:])
-        elif r.get("notes"):
-            why = "scenario %s: %s" % (sname, r["notes"][:3])
-        elif r["fds_after"] != r["fds_before"] or r.get("maps_after") != r.get("maps_before"):
-            why = ("scenario %s x20: what the refused / failed sends embedded is still held afterwards: descriptors %s -> %s, mappings %s -> %s"
-                   % (sname, r["fds_before"], r["fds_after"], r.get("maps_before"), r.get("maps_after")))
-        if why:
-            fails.append((None, r, why))
-            chk.failing_input(why, {"scenario": sname, "record": r}, key="c14res:%s" % sname)
-    cov["refused_send_scenarios"] = sorted(rgot)
+def nestrecv_stage(chk, rng, binp, n, fails, tag="c14n"):
+    """nested receives (a receive-and-decode issued from inside another value's Deserialize): oracle + model TlsRecv; returns (ncases, ntodo, nbad)"""
     # receive side: a receive-and-decode issued from inside another value's Deserialize (model: TlsRecv)
     nlines, ncases = [], []
-    for i in range(400 if thorough else 60):
+    for i in range(n):
         c = {"id": i + 1, "bad": rng.choice([0, 0, 0, 0, 1, 1, 2, 2]), "prop": int(rng.random() < 0.6), "nafter": rng.randint(0, 4), "ninner": rng.randint(0, 3)}
         ncases.append(c)
         nlines.append("id=%(id)d bad=%(bad)d prop=%(prop)d nafter=%(nafter)d ninner=%(ninner)d" % c)
-    recs, _, rc, err = C.run_harness(bins["default"], "nestrecv", nlines, shim=False, timeout=300)
+    recs, _, rc, err = C.run_harness(binp, "nestrecv", nlines, shim=False, timeout=300)
     ngot = {r["id"]: r for r in recs if r.get("kind") == "nestrecv"}
     for c in ncases:
         r = ngot.get(c["id"])
@@ -368,7 +327,7 @@ def check_C14(chk):
         inner_obs = "[(%s, %s)]" % (lst(inn), lst(innr)) if innr else "[]"
         ntodo.append((c["id"], "check_to (%s) %s %s %s %s %s" % (outer_msg, body, "true" if r["result"]["outcome"] == "Ok" else "false", lst(gc), lst(gr), inner_obs)))
     nheader = "From Coq Require Import List Bool.\nFrom IPC Require Import TlsRecv.\nImport ListNotations.\n"
-    nres, nerrors = C.coq_eval_sharded(nheader, ntodo, lambda p: "Eval vm_compute in (%d, %s)." % p, "c14n", shard=100)
+    nres, nerrors = C.coq_eval_sharded(nheader, ntodo, lambda p: "Eval vm_compute in (%d, %s)." % p, tag, shard=100)
     nbad = [i for i, _ in ntodo if nres.get(i) != "true"]
     if nerrors:
         chk.unproved("model evaluation (coqc on generated nested-receive cases) failed", nerrors[0][-1500:])
@@ -376,6 +335,58 @@ def check_C14(chk):
         c = next(x for x in ncases if x["id"] == nbad[0])
         chk.unproved("correspondence TlsRecv.check_to: what a nested receive handed out differs from TlsRecv.to_ on %d of %d cases" % (len(nbad), len(ntodo)),
                      {"nestrecv_case": c, "observed": ngot[c["id"]]["result"], "model_term": dict(ntodo)[c["id"]]})
+    return ncases, ntodo, nbad
+
+
+def check_C14(chk):
+    thorough = chk.tier == "thorough"
+    rng = random.Random(chk.seed)
+    proof_ok = C.proof_stage(chk, "C14")
+    bins = build_all(chk, ["default", "inprocess"]) if False else build_all(chk, ["default"])
+    if not all(bins.values()):
+        return
+    cases, got, fails, todo, bad, errors = script_stage(chk, rng, bins["default"], 5000 if thorough else 300, 5 if thorough else 3)
+    cov = chk.coverage
+    cov["evaluations"] = len(cases)
+    cov["traces_validated_against_impl"] = len(todo)
+    cov["distinct_nontrivial"] = len({c["body"] + (c["pre"][0] if c["pre"] else "") for c in cases if "(" in c["body"] or "f" in c["body"] or c["pre"]})
+    cov["correspondence_mismatches"] = len(bad)
+    cov["rule"] = ("script driver: a value whose Serialize implementation interprets a generated program (emit data, embed senders / move receivers / regions, "
+                   "nested sends of depth <= 3 (thorough 5) with their own attachments whose failure is propagated or ignored, failure at any point), optionally "
+                   "preceded on the same thread by a send that fails after embedding endpoints, always followed by a plain message; the receiver is a platform-level "
+                   "one-shot server so the raw attachment list of every message is visible and each attachment is identified by probing; messages, results and "
+                   "release of every endpoint are compared with Tls.ipc_send; non-trivial = nested or failing programs")
+    cov["input_distribution"] = {"with_failing_predecessor": sum(1 for c in cases if c["pre"]), "failing": sum(1 for c in cases if "f" in c["body"]),
+                                 "nested": sum(1 for c in cases if "(" in c["body"])}
+    for c in [x for x in cases if "(" in x["body"]][:3]:
+        r = got.get(c["id"])
+        chk.sample({"serializer_program": c["body"], "kinds": c["kinds"], "pre": c["pre"] and c["pre"][0], "observed": r and r["result"]})
+    if errors:
+        chk.unproved("model evaluation (coqc on generated cases) failed", errors[0][-1500:])
+    if bad and not fails:
+        c, r = bad[0]
+        chk.unproved("correspondence TlsCheck.check_script: messages / results differ from Tls.ipc_send on %d of %d programs" % (len(bad), len(todo)),
+                     {"serializer_program": c["body"], "model_term": c["term"], "kinds": c["kinds"], "pre": c["pre"], "observed": r and r["result"]})
+    # sends refused by the OS (receiver gone), small and multi-packet, carrying senders, a moved receiver and a region; sends whose
+    # serialisation fails after embedding: nothing of them may be retained (res driver scenarios shared with C11)
+    rnames = ["send_closed_att", "send_closed_big_att", "ser_fail_att"]
+    rrecs, _, rrc, rerr = C.run_harness(bins["default"], "res", ["scen name=%s n=%d" % (s, 20) for s in rnames], shim=False, timeout=300)
+    rgot = {r.get("name"): r for r in rrecs if r.get("kind") == "scen"}
+    for sname in rnames:
+        r = rgot.get(sname)
+        why = None
+        if r is None:
+            why = "scenario %s did not complete (rc=%s): %s" % (sname, rrc, rerr[-300:])
+        elif r.get("notes"):
+            why = "scenario %s: %s" % (sname, r["notes"][:3])
+        elif r["fds_after"] != r["fds_before"] or r.get("maps_after") != r.get("maps_before"):
+            why = ("scenario %s x20: what the refused / failed sends embedded is still held afterwards: descriptors %s -> %s, mappings %s -> %s"
+                   % (sname, r["fds_before"], r["fds_after"], r.get("maps_before"), r.get("maps_after")))
+        if why:
+            fails.append((None, r, why))
+            chk.failing_input(why, {"scenario": sname, "record": r}, key="c14res:%s" % sname)
+    cov["refused_send_scenarios"] = sorted(rgot)
+    ncases, ntodo, nbad = nestrecv_stage(chk, rng, bins["default"], 400 if thorough else 60, fails)
     bad = bad + nbad
     cov["nested_receive_cases"] = len(ncases)
     cov["nested_receive_validated_against_model"] = len(ntodo)
